@@ -137,15 +137,6 @@ package surveyor
 //@   before select#1 assert selwaits(p.sendQ)
 //@
 // ---- end generated current-queue contracts ----
-// ---- generated AddPipe contracts (tools/gen_addpipe_contracts.py) ----
-//@ func (*socket).AddPipe
-//@   ghost wasClosed = s.closed at call:Lock#1
-//@   ensures wasClosed ==> result == protocol.ErrClosed && !spawned("receiver") && !spawned("sender")
-//@   ensures !wasClosed && isnil(result) ==> spawned("receiver") && spawned("sender") && has(s.pipes, pp.ID())
-//@   ensures !wasClosed ==> isnil(result)
-//@   before call:SetPrivate#1 assert p.p == pp && p.s == s
-//@
-// ---- end generated AddPipe contracts ----
 //@
 //@ func (*socket).Close
 //@   ghost was = s.closed at call:Lock#1
@@ -153,3 +144,17 @@ package surveyor
 //@   ensures was ==> result == protocol.ErrClosed && !called("close")
 //@   ensures !was ==> isnil(result) && s.closed
 //@   before call:close#1 assert held(s.Mutex) && s.closed
+//@
+//@ func (*pipe).sender
+//@   loop 1 invariant evcount("sent") == 0
+//@   ensures evcount("sent") == 0
+// ---- generated AddPipe contracts (tools/gen_addpipe_contracts.py) ----
+//@ func (*socket).AddPipe
+//@   ghost wasClosed = s.closed at call:Lock#1
+//@   ensures wasClosed ==> result == protocol.ErrClosed && !spawned("receiver") && !spawned("sender")
+//@   ensures !wasClosed && isnil(result) ==> spawned("receiver") && spawned("sender") && has(s.pipes, pp.ID())
+//@   ensures !wasClosed ==> isnil(result)
+//@   before go:sender#1 assert fresh(p.sendQ) && fresh(p.closeQ)
+//@   before call:SetPrivate#1 assert p.p == pp && p.s == s
+//@
+// ---- end generated AddPipe contracts ----
